@@ -213,10 +213,14 @@ def concrete_points(c):
               "    except Exception as e:\n        REPRODUCED('%%s: %%s for %%r' %% (type(e).__name__, e, _a))\n"
               "    if _r is not True: REPRODUCED(%r + ' fails for arguments %%r' %% (_a,))\nNOT_REPRODUCED()\n") % (
                   common.VERIF, c.get("helpers", ""), an, body, list(pts), c["name"])
-    rc, o = common.run_script(script)
-    nm = c["name"] + " [%d concrete points, real re]" % len(pts)
+    rc, o = 0, ""
+    for hs in (0, 1, 2, 3):                 # the same points under several interpreter hash seeds
+        rc, o = common.run_script(script, hs)
+        if rc != 0:
+            break
+    nm = c["name"] + " [%d concrete points, real re, hash seeds 0-3]" % len(pts)
     if rc == 1:
-        return [{"name": nm, "status": "violated", "detail": o.strip()[-300:], "script": script, "inputs": {"points": len(pts), "text": ""}}]
+        return [{"name": nm, "status": "violated", "detail": o.strip()[-300:], "script": script, "hashseed": [0, 1, 2, 3], "inputs": {"points": len(pts), "text": ""}}]
     if rc == 0:
         return [{"name": nm, "status": "discharged", "detail": "concrete execution of the harness body with the real re"}]
     return [{"name": nm, "status": "error", "detail": "script error: " + o[-300:]}]
